@@ -142,3 +142,39 @@ def memo_on_success(ctx, dotted="edgegraph.traversal.helpers.neighbors", insert=
                 where = "inside a loop" if n.loop_depth else ("in an exception handler" if n.in_handler else "in a finally block")
                 res.note(f"MEMO-ON-SUCCESS pointer: {f.rel}:{n.lineno} {dotted}: the memo is filled {where}; an aborted query could leave a partial entry (the fault sweep decides)")
     res.rule("MEMO-ON-SUCCESS", max(k, 1))
+
+
+def is_on_values(ctx, rels):
+    """IS-ON-VALUE (pointer): `is` / `is not` where an operand is a number or string literal, or a name bound from enumerate() / range() /
+    len() / an index or arithmetic expression in the same function.  Identity of equal ints beyond the small-int cache and of equal
+    strings that are not the same constant is an accident of the interpreter; the evaluator leaves such a comparison UNDECIDED (ints)
+    or decides it for caller-owned strings (UserStr), so this rule only points at the line."""
+    res = ctx.res
+    n = 0
+    for rel in rels:
+        try:
+            tree = ctx.src.tree(rel)
+        except Exception:  # noqa: BLE001
+            continue
+        for fn in [x for x in ast.walk(tree) if isinstance(x, (ast.FunctionDef, ast.AsyncFunctionDef))]:
+            numeric = set()
+            for st in ast.walk(fn):
+                if isinstance(st, ast.For) and isinstance(st.iter, ast.Call) and getattr(st.iter.func, "id", None) in ("enumerate", "range"):
+                    tg = st.target
+                    if isinstance(tg, ast.Name):
+                        numeric.add(tg.id)
+                    elif isinstance(tg, ast.Tuple) and tg.elts and isinstance(tg.elts[0], ast.Name) and st.iter.func.id == "enumerate":
+                        numeric.add(tg.elts[0].id)
+                if isinstance(st, ast.Assign) and len(st.targets) == 1 and isinstance(st.targets[0], ast.Name):
+                    v = st.value
+                    if isinstance(v, ast.BinOp) or (isinstance(v, ast.Call) and (getattr(v.func, "id", None) in ("len", "int") or getattr(v.func, "attr", None) in ("index", "get", "count"))):
+                        numeric.add(st.targets[0].id)
+            for c in ast.walk(fn):
+                if isinstance(c, ast.Compare) and any(isinstance(o, (ast.Is, ast.IsNot)) for o in c.ops):
+                    n += 1
+                    sides = [c.left] + list(c.comparators)
+                    lits = [s_ for s_ in sides if isinstance(s_, ast.Constant) and isinstance(s_.value, (int, float, str, bytes)) and not isinstance(s_.value, bool)]
+                    names = [s_ for s_ in sides if isinstance(s_, ast.Name) and s_.id in numeric]
+                    if lits or len(names) >= 1 and all(isinstance(s_, ast.Name) and s_.id in numeric for s_ in sides):
+                        res.note(f"IS-ON-VALUE pointer: {rel}:{c.lineno} in {fn.name}: `{ast.unparse(c)}` compares numbers / strings by identity (equal values are the same object only by accident of the interpreter)")
+    res.rule("IS-ON-VALUE", n)
